@@ -386,6 +386,7 @@ def stepL (c : SCfg) (s : SState) (l : Label) : SState :=
     let s := if s.idleSleep then s else s.note .I "slept although no retry delay was reported"
     { s with idleSuspended := true }
   | .idleContinue =>
+    let s := s.inPhase [.idle1, .idle2] "idle continue"
     -- C04: an idle `execute` must give the parser / the clock a chance before looping again
     let s := if s.idleSuspended then s
       else { (s.note .I "execute re-enters its loop from the idle branch without having suspended (busy spin)") with idleSuspended := true }
@@ -414,7 +415,7 @@ def stepL (c : SCfg) (s : SState) (l : Label) : SState :=
       let mret := (nextTry e.ret failed).isSome
       let s := if retried == mret then s else s.note .R s!"attempt {id} of scenario {e.key.scen}: retried = {retried}, model {mret} (failed = {failed}, retries = {repr (e.ret.map (·.retries))})"
       let _ := t
-      { s with running := s.running.filter (fun x => !(x.id == id)), endedUnconsumed := s.endedUnconsumed + 1,
+      { s with running := s.running.eraseP (fun x => x.id == id), endedUnconsumed := s.endedUnconsumed + 1,
                notifs := s.notifs ++ [(id, e.key, failed, retried)] }
   | .notif id failed retried =>
     let s := s.inPhase [.draining] "notification drained"
